@@ -25,6 +25,7 @@ def run(chk):
     r18c(chk)
     r18d(chk)
     r18g(chk)
+    r18h(chk)
     from .c03 import r03a, r03b
 
     r03a(chk, 'R18.e')
@@ -211,3 +212,75 @@ def r18g(chk, rid='R18.g'):
     l_chain = ' ; '.join(text(e) for e in chain(calls[0].args[1]))
     s_chain = ' ; '.join(text(e) for e in chain(calls[0].args[2]))
     chk.ob(rid, rel, 'ColorValue._setCssText', 'lightness (third hsl() component) is passed second, saturation third', 'raw[2]' in l_chain and 'raw[1]' in s_chain and 'raw[1]' not in l_chain and 'raw[2]' not in s_chain, f'l <- {l_chain[:60]}; s <- {s_chain[:60]}', shape=True)
+
+
+def r18h(chk, rid='R18.h'):
+    chk.rule(rid, 'numeric literals and their typed accessors, decided by evaluation: a DIMENSION / NUMBER / PERCENTAGE token is passed through the toSeq conversion of its PreDef production (evaluated from prodparser.py) and then through DimensionValue._setCssText (evaluated from value.py; the production parse between them is modelled): the value is exactly the real number the literal denotes - integers of any size, one to six fractional digits, with and without integer part and sign - the sign spelling is kept, and the unit is the normalised unit (case folded, simple escapes removed) or None')
+    import re as _re
+    from fractions import Fraction
+
+    from sa.absint import Evaluator, Raised, Record
+
+    vm = chk.repo.mod('cssutils/css/value.py')
+    pm = chk.repo.mod('cssutils/prodparser.py')
+
+    def norm(x):
+        return _re.sub(r'\\([^0-9a-fA-F\n\r\f])', r'\1', x).lower() if x else x
+
+    def prod_of(kind):
+        f = pm.get(f'PreDef.{kind}')
+        intr = {'Prod': lambda **k: Record(kind=kind, **k), 'cssutils': Record(helper=Record(normalize=norm)),
+                'PreDef': Record(types=Record(DIMENSION='DIMENSION', NUMBER='NUMBER', PERCENTAGE='PERCENTAGE'))}
+        p = Evaluator(f, intrinsics=intr, module=pm, cls='PreDef').run(stop=True)
+        if isinstance(p, Raised) or not isinstance(p, Record):
+            raise AnalysisError(f'PreDef.{kind}: {p!r}')
+        return p
+
+    prods = {'DIMENSION': prod_of('dimension'), 'NUMBER': prod_of('number'), 'PERCENTAGE': prod_of('percentage')}
+    fn = vm.get('DimensionValue._setCssText')
+
+    def run(ttype, literal):
+        token = (ttype, literal, 1, 1)
+        conv = getattr(prods[ttype], 'toSeq', None)
+        typ, val = conv(token, None) if conv else (token[0], token[1])
+        me = Record(_checkReadonly=lambda: None, _setSeq=lambda sq: None, wellformed=None, _sign=None, _value=None, _dimension=None, _type=None)
+        intr = {'ProdParser().parse': lambda *a, **k: (True, [Record(type=typ, value=val)], {}, None), 'Sequence': lambda *a, **k: None, 'Choice': lambda *a, **k: None,
+                'PreDef': Record(dimension=lambda **k: None, number=lambda **k: None, percentage=lambda **k: None), 'normalize': norm}
+        res = Evaluator(fn, intrinsics=intr, module=vm, cls='DimensionValue').run(self=me, cssText=literal)
+        return res, me
+
+    nums = ['0', '1', '7', '007', '1.5', '1.50', '.5', '0.5', '0.000001', '0.123456', '123456.654321', '9007199254740993', '99999999999999999', '1' + '0' * 40, '18446744073709551617']
+    n = 0
+    bad = []
+    for numtext in nums:
+        for sign in ('', '+', '-'):
+            for ttype, unit, want_unit in (('NUMBER', '', None), ('PERCENTAGE', '%', '%'), ('DIMENSION', 'px', 'px'), ('DIMENSION', 'PX', 'px'), ('DIMENSION', 'e\\m', 'em'), ('DIMENSION', 'Q', 'q')):
+                literal = sign + numtext + unit
+                res, me = run(ttype, literal)
+                n += 1
+                if isinstance(res, Raised):
+                    bad.append(f'{literal!r}: {res!r}')
+                    continue
+                try:
+                    denotes = Fraction(me._value)
+                except (TypeError, ValueError):
+                    bad.append(f'{literal!r}: value {me._value!r}')
+                    continue
+                want = Fraction(sign.replace('+', '') + (numtext if not numtext.startswith('.') else '0' + numtext))
+                if '.' in numtext:
+                    want = Fraction(float(want))  # a decimal literal is held as the nearest double; integers exactly
+                probs = []
+                if denotes != want:
+                    probs.append(f'value {me._value!r} instead of {sign + numtext}')
+                if me._sign != sign:
+                    probs.append(f'sign {me._sign!r}')
+                if me._dimension != want_unit:
+                    probs.append(f'unit {me._dimension!r} instead of {want_unit!r}')
+                if me._type != ttype:
+                    probs.append(f'type {me._type!r}')
+                if probs:
+                    bad.append(f'{literal!r}: ' + ', '.join(probs))
+    chk.extra['numeric_literal_cases'] = n
+    for b_ in bad[:4]:
+        chk.ob(rid, 'cssutils/css/value.py', 'DimensionValue._setCssText', 'literal read as written', False, b_)
+    chk.ob(rid, 'cssutils/css/value.py', 'DimensionValue._setCssText', f'all {n} literals: exact value, sign spelling, normalised unit, token type', not bad, f'{len(bad)} differ')
